@@ -142,7 +142,11 @@ def run(model, rep):
                     rep.ok('C01.PIPE', mi.loc(), '%s: %s is not run' % (label, name), 'nothing to order', key='C01.PIPE|%s|absent|%s' % (label, name))
                     continue
                 for p_ in preds:
-                    ok = p_ in pos and pos[p_] < pos[name]
+                    if p_ not in pos:
+                        # the earlier stage does not run in this configuration: nothing to order (what the options then do is decided by C01.ALL)
+                        rep.ok('C01.PIPE', mi.loc(), '%s: %s is not run (would precede %s)' % (label, p_, name), 'nothing to order', key='C01.PIPE|%s|%s<%s' % (label, p_, name))
+                        continue
+                    ok = pos[p_] < pos[name]
                     rep.check(ok, 'C01.PIPE', mi.loc(), '%s: %s after %s' % (label, name, p_), 'in this order', '%s runs before %s has completed' % (name, p_), key='C01.PIPE|%s|%s<%s' % (label, p_, name))
             for t_ in transformers:
                 if t_ in pos:
